@@ -105,11 +105,17 @@ fn vp_native_request_wire_roundtrip() {
 /// C08: request target form and Host field over a URL x proxy matrix
 #[test]
 fn vp_native_target_and_host_matrix() {
-    let urls = ["http://a.test", "http://a.test/", "http://a.test:80/x", "http://a.test:8080/x?y=1", "http://user:pw@a.test/x#frag", "http://[::1]:8080/v6?z",
-                "https://a.test/s", "https://a.test:443/s?t#f", "https://u@a.test:8443/", "http://A.Test/Case"];
+    // cross product of URL shapes: scheme x userinfo (incl. password without user name, empty password) x host (name, upper case,
+    // IPv6 literal) x port (none, scheme default, other scheme's default, other) x path x query x fragment
+    let mut urls: Vec<String> = Vec::new();
+    for scheme in ["http", "https"] { for ui in ["", "user@", "user:pw@", ":secret@", "user:@"] { for host in ["a.test", "A.Test", "[::1]"] {
+        for port in ["", ":80", ":443", ":8080"] { for path in ["", "/", "/x/y"] { for q in ["", "?y=1", "?"] { for frag in ["", "#frag", "#"] {
+            urls.push(format!("{}://{}{}{}{}{}{}", scheme, ui, host, port, path, q, frag));
+        } } } }
+    } } }
     let proxies: [Option<&str>; 3] = [None, Some("http://proxy.test:3128"), Some("http://pu:pp@proxy.test:3128")];
     let mut cases = 0u64;
-    for u in urls { for p in proxies {
+    for u in urls.iter().map(|s| s.as_str()) { for p in proxies {
         let mut req = crate::RequestBuilder::new(http::Method::GET, u).prepare();
         let url = req.url().clone();
         let proxy = p.map(|s| Url::parse(s).unwrap());
@@ -410,6 +416,15 @@ fn vp_native_builder_features_roundtrip() {
         let path = std::env::temp_dir().join(format!("vp_native_body_{}_{}", std::process::id(), data.len()));
         std::fs::write(&path, data).unwrap();
         let r = wire_of(crate::put("http://h.test/").file(std::fs::File::open(&path).unwrap())); cases += 1;
+        // a handle whose cursor is not at the start (the caller sniffed a few bytes / read it to the end): the body is still the whole file
+        for skip in [1usize, 8, usize::MAX] {
+            let mut f = std::fs::File::open(&path).unwrap();
+            let mut sink = vec![0u8; skip.min(data.len())];
+            if skip == usize::MAX { let mut all = Vec::new(); f.read_to_end(&mut all).unwrap(); } else { let _ = f.read(&mut sink).unwrap(); }
+            let r2 = wire_of(crate::put("http://h.test/").file(f)); cases += 1;
+            assert!(r2.body == *data, "file body of {} bytes from a handle advanced by {}", data.len(), skip);
+            assert_eq!(header(&r2, "content-length"), vec![data.len().to_string().as_bytes()], "Content-Length for a handle advanced by {}", skip);
+        }
         let _ = std::fs::remove_file(&path);
         assert!(r.body == *data, "file body of {} bytes", data.len()); assert_eq!(header(&r, "content-length"), vec![data.len().to_string().as_bytes()]);
         assert_eq!(header(&r, "content-type"), vec![&b"application/octet-stream"[..]]);
